@@ -112,6 +112,20 @@ PROPS = {
                     'votesgen: vote histories with a restart between any two operations (probability 1/12 per step, votes in progress, orchestrators registered), continuation compared step by step; '
                     'oraclegen: oracle histories ended by a restart; reggen: registration/confirmation histories ended by a restart.',
             'assumptions': ['a restart happens at a block boundary (no claims pending inside a block)', 'bank and auth genesis round trips are the SDK\'s (exercised, not modelled)']},
+    'C06': {'gen': ['gen_nondet.py'], 'extra': ['c06_replays.py'],
+            'suites': [{'name': 'det', 'quick': '-n 150 -ops 50', 'thorough': '-n 2000 -ops 100', 'shards': {'quick': 2, 'thorough': 16}},
+                       {'name': 'detoracle', 'quick': '-n 150 -ops 60', 'thorough': '-n 2000 -ops 120', 'shards': {'quick': 1, 'thorough': 8}}],
+            'trusted_base': [
+                'translator bin/gen_nondet.py (syntactic, no type checker: map variables are recognised from literals, make, declarations, parameters and calls of map-returning functions of the two modules): '
+                'regenerates coq/Gen/NondetFacts.v from module/x/mhub2 and module/x/oracle (tests, generated protobuf/gateway code and test_common.go excluded) on every run: every `range` over a map, goroutine, select, time.Now and math/rand use',
+                'the models are Gallina functions (deterministic by construction) that model Go maps by lists; theorems show order-independence at each inventoried site; the correspondence suites det / detoracle tie the models to the code, '
+                'with histories that also contain failing transactions that wrote the token list (must leave no trace) and rebuilds of all keeper objects over the same stores (a process restart)',
+                'RUNTIME HALF, NOT A PROOF: bin/c06_replays.py executes the same seeded histories in several fresh processes (Go randomises map iteration per process) and single cases alone, and compares the observations plus a SHA-256 over all KV pairs '
+                'of the bridge, oracle and bank stores and the ABCI events after every operation; goroutine scheduling inside one process is not explored (the consensus code starts no goroutine: inventory)',
+                'not covered: nondeterminism inside cosmos-sdk / tendermint / protobuf (trusted), the app wiring in module/app, gRPC query handlers (not consensus)'],
+            'rule': 'det: hub histories (as for C04/C10-C13) interleaved with failing token-list transactions and keeper rebuilds; detoracle: oracle histories (as for C18); every history executed by 3 (thorough: 8) processes and compared byte for byte incl. per-operation state/event hashes; 4 cases per suite re-run alone.',
+            'assumptions': ['distinct voters hold at most the total power (C18_voters_distinct_one_report_each + staking: operator addresses are unique)',
+                            'PowerDiff\'s float64 additions are exact: every partial sum is an integer below 2^34 (both signer sets sum to at most 2^32-1: C09)']},
     'C18': {'suites': [{'name': 'oracle', 'quick': '-n 300 -ops 80', 'thorough': '-n 4000 -ops 160', 'shards': {'quick': 2, 'thorough': 16}}],
             'trusted_base': [
                 'model: coq/Oracle/Oracle.v (MsgPriceClaim / MsgHoldersClaim handlers, attestation vote lists, tryAttestation threshold, GetNormalizedValPowers, the two AttestationHandler branches, ProcessCurrentEpoch, '
@@ -203,6 +217,10 @@ TEXT = {
                      'and that the continuation is identical when the unexported components are empty; witnesses refute the full round trip (transfer-id counter, statuses, oracle epoch). Monitors compare every observed component before and after the real round trip; '
                      'nine lost components are KNOWN FINDINGS (no genesis field exists), one defect (pool / outgoing txs / vote records not exported) was repaired.',
             'note': 'Trusted: Coq kernel, extraction + driver, Go harness (Env.Restart); app/export.go not exercised.'},
+    'C06': {'technique': 'source-to-Coq inventory of nondeterminism sources + Coq order-independence theorems per site + correspondence; process-level replays as the runtime half',
+            'level': 'Theorems: the map iterations / goroutines / clock / random uses of the current consensus code are exactly the eight classified sites and two simulation helpers; sorted key lists, minima, exact sums, the weighted-median inputs are independent of iteration order; '
+                     'at most one holder list can pass the two-thirds test. The models are functions, tied to the code by the det suites. PARTIAL by nature: absence of nondeterminism below the modules (SDK, protobuf, Go runtime) and goroutine scheduling are exercised by replays in fresh processes, not proved.',
+            'note': 'Trusted: Coq kernel, the syntactic translator, extraction + driver, Go harness; replays are tests.'},
     'C18': {'technique': 'Coq invariant over claim histories + order-independence lemma for the quorum + sorted-list proof of the weighted median + correspondence with the real x/oracle keeper',
             'level': 'Theorems for all histories and power distributions: epoch, prices and holders change at no step other than the epoch-boundary EndBlocker; voters are pairwise distinct and are exactly the validators with a stored (latest) report of the epoch; '
                      'the in-order early-exit quorum test equals "voters hold >= 66% of bonded power"; a boundary that changes prices/holders had that quorum; every stored price is the weighted median (half-weight bounds on both sides) of the latest reports; '
